@@ -1,7 +1,393 @@
-(* C03 — key-switching family.  Pinned statements only. *)
+(* C03 — key-switching family.  Pinned statements only (proofs: Proofs/GadgetDecomp.v, GadgetPhase.v, GadgetBound.v, C03Phase.v;
+   spec-level notions: Model/GadgetSpec.v).
+   Reading guide.  psumf n f m = sum_{i<m} f i in Z[X]/(X^n+1); pval P b n f size = sum_j 2^(P-(j+1)b) f_j; acol n a ci l = limb l of
+   column ci (zero beyond the last limb); phase_f P b n cols size R Sk = sum_co pval(R co) (x) Sk co (Sk 0 = 1);
+   gp_spec = functional form of Gadget.gadget_product; kphase q = phase of key cell q = (row, ci);
+   key_rows_ok = "cell (row, ci) has phase 2^(P-(row+1) dsize b) src_ci + e_{row,ci} + 2^P I_{row,ci}" (HYPOTHESIS of the phase theorems);
+   gadget_err = gadget_noise - gadget_trunc (explicit), gadget_noise = sum_{row,ci} digit (x) e, gadget_trunc = contribution of the key limbs
+   that the product of digit di drops (zero for dsize <= 2), gadget_int = the multiple of 2^P. *)
 From PV Require Import Base.MachineInt Model.Znx Model.Limbs Model.Flat Model.Ring Model.Poly Model.DftAbs Model.Gadget Model.GadgetOracle Model.C03Run.
+From PV Require Import Model.GadgetSpec Proofs.C07Dft Proofs.C07Ring Proofs.GadgetDecomp Proofs.GadgetPhase Proofs.GadgetBound Proofs.C03Phase.
 Open Scope Z_scope.
 
-Theorem C03_placeholder : digit_bound 3 2 = 36.
-Proof. reflexivity. Qed.
-Print Assumptions C03_placeholder.
+(* (1) limbs grouped by (step = dsize, offset = dsize-di-1) recombine to the value: pure index arithmetic, all shapes *)
+Theorem C03_gadget_decomposition_exact :
+  forall (P b : Z) (dsize a_size : nat) (a : nat -> Z),
+    (1 <= dsize)%nat ->
+    zsum (fun l : nat => a l * 2 ^ (P - (Z.of_nat l + 1) * b)) a_size =
+    zsum
+      (fun di : nat =>
+       zsum (fun q : nat => a (q * dsize + (dsize - di - 1))%nat * 2 ^ (P - (Z.of_nat q + 1) * Z.of_nat dsize * b + Z.of_nat di * b))
+         ((a_size + di) / dsize)) dsize.
+Proof. exact gadget_decomposition_exact. Qed.
+Print Assumptions C03_gadget_decomposition_exact.
+
+(* (1) with a key of dnum rows exactly the limbs l < min(a_size, dnum*dsize) survive *)
+Theorem C03_gadget_decomposition_clamped :
+  forall (P b : Z) (dsize dnum a_size : nat) (a : nat -> Z),
+    (1 <= dsize)%nat ->
+    zsum
+      (fun di : nat =>
+       zsum (fun q : nat => a (q * dsize + (dsize - di - 1))%nat * 2 ^ (P - (Z.of_nat q + 1) * Z.of_nat dsize * b + Z.of_nat di * b))
+         (Nat.min ((a_size + di) / dsize) dnum)) dsize =
+    zsum (fun l : nat => a l * 2 ^ (P - (Z.of_nat l + 1) * b)) (Nat.min a_size (dnum * dsize)).
+Proof. exact gadget_decomposition_clamped. Qed.
+Print Assumptions C03_gadget_decomposition_clamped.
+
+(* (1) the difference to the full value is the dropped tail l in [dnum*dsize, a_size) *)
+Theorem C03_gadget_decomposition_tail :
+  forall (P b : Z) (dsize dnum a_size : nat) (a : nat -> Z),
+    (1 <= dsize)%nat ->
+    zsum (fun l : nat => a l * 2 ^ (P - (Z.of_nat l + 1) * b)) a_size =
+    zsum
+      (fun di : nat =>
+       zsum (fun q : nat => a (q * dsize + (dsize - di - 1))%nat * 2 ^ (P - (Z.of_nat q + 1) * Z.of_nat dsize * b + Z.of_nat di * b))
+         (Nat.min ((a_size + di) / dsize) dnum)) dsize +
+    zsum (fun i : nat => a (dnum * dsize + i)%nat * 2 ^ (P - (Z.of_nat (dnum * dsize + i) + 1) * b)) (a_size - dnum * dsize).
+Proof. exact gadget_decomposition_tail. Qed.
+Print Assumptions C03_gadget_decomposition_tail.
+
+(* (1) on polynomial limbs *)
+Theorem C03_gadget_decomposition_poly :
+  forall (P b : Z) (n dsize dnum a_size : nat) (a : nat -> list Z),
+    (1 <= dsize)%nat ->
+    (forall l : nat, length (a l) = n) ->
+    psumf n
+      (fun di : nat =>
+       psumf n (fun q : nat => pscale (2 ^ (P - (Z.of_nat q + 1) * Z.of_nat dsize * b + Z.of_nat di * b)) (a (q * dsize + (dsize - di - 1))%nat))
+         (Nat.min ((a_size + di) / dsize) dnum)) dsize = pval P b n a (Nat.min a_size (dnum * dsize)).
+Proof. exact gadget_decomposition_poly. Qed.
+Print Assumptions C03_gadget_decomposition_poly.
+
+(* (1) the model's (step, offset) selection is that grouping; the selected index always exists *)
+Theorem C03_dft_select_digit :
+  forall (n sz dsize di : nat) (a : plimbs) (q : nat),
+    (1 <= dsize)%nat ->
+    (di < dsize)%nat ->
+    (q < sz)%nat ->
+    (sz <= (length a + di) / dsize)%nat ->
+    lim (dft_select n sz dsize (dsize - di - 1) a) q =
+    (if (q * dsize + (dsize - di - 1) <? length a)%nat then lim a (q * dsize + (dsize - di - 1)) else pzero n) /\
+    (q * dsize + (dsize - di - 1) < length a)%nat.
+Proof. exact dft_select_digit. Qed.
+Print Assumptions C03_dft_select_digit.
+
+(* (2) the model IS the functional form (zero accumulator of msize limbs, every dsize >= 1, both clamp modes) *)
+Theorem C03_gadget_product_spec :
+  forall (n cin cols_out msize a_size dsize dnum : nat) (clamp : bool) (a : cols_t) (m : pmat),
+    wf_cols n cin a_size a ->
+    (1 <= dsize)%nat ->
+    (dsize - 2 <= msize)%nat ->
+    exists res : cols_t,
+      gadget_product n cols_out msize (zcols n cols_out msize) a a_size dsize dnum msize clamp m = Some res /\
+      wf_cols n cols_out msize res /\
+      (forall co j : nat,
+       (co < cols_out)%nat -> (j < msize)%nat -> lim (col res co) j = gp_spec n cin cols_out msize a_size dsize dnum clamp (acol n a) m co j).
+Proof. exact gadget_product_spec. Qed.
+Print Assumptions C03_gadget_product_spec.
+
+(* (2) digit-grouped branch from any accumulator res0 of R >= msize limbs: limbs j >= sz_r(0) keep their prior content *)
+Theorem C03_gadget_product_spec_grouped :
+  forall (n cin cols_out msize a_size dsize dnum : nat) (clamp : bool) (a : cols_t) (m : pmat),
+    wf_cols n cin a_size a ->
+    forall (R : nat) (res0 : cols_t),
+    wf_cols n cols_out R res0 ->
+    (dsize - 2 <= msize)%nat ->
+    (msize <= R)%nat ->
+    (2 <= dsize)%nat ->
+    exists res : cols_t,
+      gadget_product n cols_out R res0 a a_size dsize dnum msize clamp m = Some res /\
+      length res = cols_out /\
+      (forall co : nat,
+       (co < cols_out)%nat ->
+       length (col res co) = R /\
+       (forall j : nat,
+        (j < R)%nat ->
+        lim (col res co) j =
+        padd (if (j <? sz_r msize dsize 0)%nat then pzero n else lim (col res0 co) j)
+          (gp_spec n cin cols_out msize a_size dsize dnum clamp (acol n a) m co j))).
+Proof. exact gadget_product_spec_grouped. Qed.
+Print Assumptions C03_gadget_product_spec_grouped.
+
+(* (2) dsize = 1: one vmp, res0 ignored *)
+Theorem C03_gadget_product_spec_flat :
+  forall (n cin cols_out msize a_size dnum : nat) (clamp : bool) (a : cols_t) (m : pmat),
+    wf_cols n cin a_size a ->
+    forall (R : nat) (res0 : cols_t),
+    exists res : cols_t,
+      gadget_product n cols_out R res0 a a_size 1 dnum msize clamp m = Some res /\
+      length res = cols_out /\
+      (forall co : nat,
+       (co < cols_out)%nat ->
+       length (col res co) = R /\
+       (forall j : nat, (j < R)%nat -> lim (col res co) j = gp_flat n cin cols_out msize a_size dnum (acol n a) m R co j)).
+Proof. exact gadget_product_spec_flat. Qed.
+Print Assumptions C03_gadget_product_spec_flat.
+
+(* (3a) exact phase of the functional form under any secret family *)
+Theorem C03_gadget_phase_exact :
+  forall (P b : Z) (n cin cols_out msize a_size dsize dnum : nat) (clamp : bool) (A : nat -> nat -> list Z) (K : pmat) (Sk : nat -> list Z),
+    (forall ci l : nat, length (A ci l) = n) ->
+    (forall q c : nat, length (K q c) = n) ->
+    (forall co : nat, length (Sk co) = n) ->
+    0 <= b ->
+    Z.of_nat msize * b <= P ->
+    phase_f P b n cols_out msize (gp_spec n cin cols_out msize a_size dsize dnum clamp A K) Sk =
+    psumf n
+      (fun di : nat =>
+       psumf n
+         (fun row : nat =>
+          psumf n
+            (fun ci : nat =>
+             pmul (A ci (row * dsize + (dsize - di - 1))%nat)
+               (pscale (2 ^ (Z.of_nat di * b)) (ktrunc P b n cols_out msize dsize K Sk (row * cin + ci) di))) cin)
+         (rows_used a_size dsize dnum di clamp)) dsize.
+Proof. exact gadget_phase_exact. Qed.
+Print Assumptions C03_gadget_phase_exact.
+
+(* (3) under the key-row hypothesis: phase = sum_ci val(used limbs) (x) src_ci + E + 2^P Iq, E and Iq explicit, all shapes *)
+Theorem C03_gadget_phase_rows :
+  forall (P b : Z) (n cin cols_out msize a_size dsize dnum : nat) (clamp : bool) (A : nat -> nat -> list Z) (K : pmat)
+      (Sk src : nat -> list Z) (e I : nat -> nat -> list Z),
+    (1 <= dsize)%nat ->
+    (forall ci l : nat, length (A ci l) = n) ->
+    (forall ci l : nat, (a_size <= l)%nat -> A ci l = pzero n) ->
+    wf_pmat_in n (dnum * cin) (msize * cols_out) K ->
+    (forall co : nat, length (Sk co) = n) ->
+    (forall ci : nat, length (src ci) = n) ->
+    (forall row ci : nat, length (e row ci) = n) ->
+    (forall row ci : nat, length (I row ci) = n) ->
+    0 <= b ->
+    Z.of_nat msize * b <= P ->
+    Z.of_nat dnum * Z.of_nat dsize * b <= P ->
+    key_rows_ok P b n cin cols_out msize dsize dnum K Sk src e I ->
+    phase_f P b n cols_out msize (gp_spec n cin cols_out msize a_size dsize dnum clamp A K) Sk =
+    padd
+      (padd (psumf n (fun ci : nat => pmul (pval_used P b n a_size dsize dnum A ci) (src ci)) cin)
+         (gadget_err P b n cin cols_out msize dsize dnum A K Sk e)) (pscale (2 ^ P) (gadget_int b n cin cols_out msize dsize dnum A K Sk I)).
+Proof. exact gadget_phase_rows_in. Qed.
+Print Assumptions C03_gadget_phase_rows.
+
+(* (3b) the product part of the key switch (gglwe_product_dft) on the model *)
+Theorem C03_keyswitch_phase :
+  forall (P b : Z) (n rin cols_out msize a_size dsize dnum : nat) (a : cols_t) (K : pmat) (Sk s_in : nat -> list Z) (e I : nat -> nat -> list Z),
+    wf_cols n rin a_size a ->
+    wf_pmat_in n (dnum * rin) (msize * cols_out) K ->
+    (1 <= dsize)%nat ->
+    (dsize - 2 <= msize)%nat ->
+    (forall co : nat, length (Sk co) = n) ->
+    (forall ci : nat, length (s_in ci) = n) ->
+    (forall row ci : nat, length (e row ci) = n) ->
+    (forall row ci : nat, length (I row ci) = n) ->
+    0 <= b ->
+    Z.of_nat msize * b <= P ->
+    Z.of_nat dnum * Z.of_nat dsize * b <= P ->
+    key_rows_ok P b n rin cols_out msize dsize dnum K Sk s_in e I ->
+    exists res : cols_t,
+      gadget_product n cols_out msize (zcols n cols_out msize) a a_size dsize dnum msize true K = Some res /\
+      wf_cols n cols_out msize res /\
+      phase_f P b n cols_out msize (limbs_of res) Sk =
+      padd
+        (padd (psumf n (fun ci : nat => pmul (pval_used P b n a_size dsize dnum (acol n a) ci) (s_in ci)) rin)
+           (gadget_err P b n rin cols_out msize dsize dnum (acol n a) K Sk e))
+        (pscale (2 ^ P) (gadget_int b n rin cols_out msize dsize dnum (acol n a) K Sk I)).
+Proof. exact C03_keyswitch_phase_lemma. Qed.
+Print Assumptions C03_keyswitch_phase.
+
+(* (3b) glwe_keyswitch_internal: + min(msize, a_size) limbs of the body *)
+Theorem C03_keyswitch_internal_phase :
+  forall (P b : Z) (n rin cols_out msize a_size dsize dnum : nat) (ct : cols_t) (K : pmat) (Sk s_in : nat -> list Z)
+      (e I : nat -> nat -> list Z),
+    wf_cols n (S rin) a_size ct ->
+    wf_pmat_in n (dnum * rin) (msize * cols_out) K ->
+    (1 <= n)%nat ->
+    (1 <= cols_out)%nat ->
+    (1 <= dsize)%nat ->
+    (dsize - 2 <= msize)%nat ->
+    (forall co : nat, length (Sk co) = n) ->
+    Sk 0%nat = pone n ->
+    (forall ci : nat, length (s_in ci) = n) ->
+    (forall row ci : nat, length (e row ci) = n) ->
+    (forall row ci : nat, length (I row ci) = n) ->
+    0 <= b ->
+    Z.of_nat msize * b <= P ->
+    Z.of_nat dnum * Z.of_nat dsize * b <= P ->
+    key_rows_ok P b n rin cols_out msize dsize dnum K Sk s_in e I ->
+    exists ks : cols_t,
+      keyswitch_internal n cols_out msize (zcols n cols_out msize) ct a_size dsize dnum msize K = Some ks /\
+      wf_cols n cols_out msize ks /\
+      phase_f P b n cols_out msize (limbs_of ks) Sk =
+      padd
+        (padd
+           (padd (pval P b n (acol n ct 0) (Nat.min msize a_size))
+              (psumf n (fun ci : nat => pmul (pval_used P b n a_size dsize dnum (acol n (tl ct)) ci) (s_in ci)) rin))
+           (gadget_err P b n rin cols_out msize dsize dnum (acol n (tl ct)) K Sk e))
+        (pscale (2 ^ P) (gadget_int b n rin cols_out msize dsize dnum (acol n (tl ct)) K Sk I)).
+Proof. exact C03_keyswitch_internal_phase_lemma. Qed.
+Print Assumptions C03_keyswitch_internal_phase.
+
+(* (3d) automorphism = key switch under Sk = sigma^-1(St), then sigma on every limb; sigma_* are hypotheses (any ring homomorphism sg) *)
+Theorem C03_automorphism_phase :
+  forall (n : nat) (sg : list Z -> list Z),
+    (forall a : list Z, length a = n -> length (sg a) = n) ->
+    (forall a b : list Z, length a = n -> length b = n -> sg (padd a b) = padd (sg a) (sg b)) ->
+    (forall a b : list Z, length a = n -> length b = n -> sg (pmul a b) = pmul (sg a) (sg b)) ->
+    (forall (c : Z) (a : list Z), length a = n -> sg (pscale c a) = pscale c (sg a)) ->
+    forall (P b : Z) (rin cols_out msize a_size dsize dnum : nat) (ct : cols_t) (K : pmat) (Sk St s_in : nat -> list Z)
+      (e I : nat -> nat -> list Z),
+    wf_cols n (S rin) a_size ct ->
+    wf_pmat_in n (dnum * rin) (msize * cols_out) K ->
+    (1 <= n)%nat ->
+    (1 <= cols_out)%nat ->
+    (1 <= dsize)%nat ->
+    (dsize - 2 <= msize)%nat ->
+    (forall co : nat, length (Sk co) = n) ->
+    Sk 0%nat = pone n ->
+    (forall co : nat, St co = sg (Sk co)) ->
+    (forall ci : nat, length (s_in ci) = n) ->
+    (forall row ci : nat, length (e row ci) = n) ->
+    (forall row ci : nat, length (I row ci) = n) ->
+    0 <= b ->
+    Z.of_nat msize * b <= P ->
+    Z.of_nat dnum * Z.of_nat dsize * b <= P ->
+    key_rows_ok P b n rin cols_out msize dsize dnum K Sk s_in e I ->
+    exists ks : cols_t,
+      keyswitch_internal n cols_out msize (zcols n cols_out msize) ct a_size dsize dnum msize K = Some ks /\
+      wf_cols n cols_out msize ks /\
+      phase_f P b n cols_out msize (limbs_of (map (map sg) ks)) St =
+      padd
+        (padd
+           (sg
+              (padd (pval P b n (acol n ct 0) (Nat.min msize a_size))
+                 (psumf n (fun ci : nat => pmul (pval_used P b n a_size dsize dnum (acol n (tl ct)) ci) (s_in ci)) rin)))
+           (sg (gadget_err P b n rin cols_out msize dsize dnum (acol n (tl ct)) K Sk e)))
+        (pscale (2 ^ P) (sg (gadget_int b n rin cols_out msize dsize dnum (acol n (tl ct)) K Sk I))).
+Proof. exact C03_automorphism_phase_lemma. Qed.
+Print Assumptions C03_automorphism_phase.
+
+(* for dsize <= 2 no key limb is dropped: E = gadget noise *)
+Theorem C03_gadget_err_small_dsize :
+  forall (P b : Z) (n cin cols_out msize dsize dnum : nat) (A : nat -> nat -> list Z) (K : pmat) (Sk : nat -> list Z),
+    (forall ci l : nat, length (A ci l) = n) ->
+    (forall co : nat, length (Sk co) = n) ->
+    forall e : nat -> nat -> list Z,
+    (forall row ci : nat, length (e row ci) = n) ->
+    (dsize <= 2)%nat -> gadget_err P b n cin cols_out msize dsize dnum A K Sk e = gadget_noise b n cin dsize dnum A e.
+Proof. exact gadget_err_small. Qed.
+Print Assumptions C03_gadget_err_small_dsize.
+
+(* (4) sup-norm facts *)
+Theorem C03_pnorm_padd :
+  forall a b : list Z, pnorm (padd a b) <= pnorm a + pnorm b.
+Proof. exact pnorm_padd. Qed.
+Print Assumptions C03_pnorm_padd.
+
+Theorem C03_pnorm_pscale :
+  forall (c : Z) (a : list Z), pnorm (pscale c a) = Z.abs c * pnorm a.
+Proof. exact pnorm_pscale. Qed.
+Print Assumptions C03_pnorm_pscale.
+
+Theorem C03_pnorm_pmul :
+  forall a b : list Z, length b = length a -> pnorm (pmul a b) <= Z.of_nat (length a) * pnorm a * pnorm b.
+Proof. exact pnorm_pmul. Qed.
+Print Assumptions C03_pnorm_pmul.
+
+Theorem C03_pnorm_psumf :
+  forall (n : nat) (f : nat -> list Z) (m : nat), pnorm (psumf n f m) <= zsum (fun i : nat => pnorm (f i)) m.
+Proof. exact pnorm_psumf. Qed.
+Print Assumptions C03_pnorm_psumf.
+
+(* (4) the gadget noise is below rows * cin * n * Dgroup * B *)
+Theorem C03_keyswitch_bound :
+  forall (b : Z) (n cin dsize rows : nat) (A e : nat -> nat -> list Z) (D B : Z),
+    0 <= B ->
+    (forall ci l : nat, length (A ci l) = n) ->
+    (forall row ci : nat, length (e row ci) = n) ->
+    (forall ci l : nat, pnorm (A ci l) <= D) ->
+    (forall row ci : nat, pnorm (e row ci) <= B) ->
+    pnorm (psumf n (fun row : nat => psumf n (fun ci : nat => pmul (digit b n dsize A ci row) (e row ci)) cin) rows) <=
+    Z.of_nat rows * Z.of_nat cin * Z.of_nat n * (D * zsum (fun t : nat => 2 ^ (Z.of_nat t * b)) dsize) * B.
+Proof. exact C03_keyswitch_bound. Qed.
+Print Assumptions C03_keyswitch_bound.
+
+(* (4) ... which is the `gadget` term of Gadget.gadget_env *)
+Theorem C03_keyswitch_bound_env :
+  forall (P b D : Z) (n cin dsize dnum a_size msize : nat) (A e : nat -> nat -> list Z) (rank_out S0 Ssrc Bkey rb : Z)
+      (res_size : nat) (body : bool),
+    (1 <= dsize)%nat ->
+    0 <= D ->
+    0 <= Bkey ->
+    0 <= rank_out ->
+    0 <= S0 ->
+    0 <= Ssrc ->
+    (forall ci l : nat, length (A ci l) = n) ->
+    (forall row ci : nat, length (e row ci) = n) ->
+    (forall ci l : nat, (a_size <= l)%nat -> A ci l = pzero n) ->
+    (forall ci l : nat, pnorm (A ci l) <= D) ->
+    (forall row ci : nat, pnorm (e row ci) <= Bkey) ->
+    pnorm (gadget_noise b n cin dsize dnum A e) <=
+    gadget_env P (Z.of_nat n) b D dsize dnum a_size msize (Z.of_nat cin) rank_out S0 Ssrc Bkey rb res_size body.
+Proof. exact C03_keyswitch_bound_env. Qed.
+Print Assumptions C03_keyswitch_bound_env.
+
+(* link to the executable spec values of Model/Gadget.v: poly_val = pval, phase_val = phase_f under (1, sk) *)
+Theorem C03_poly_val_pval :
+  forall (P b : Z) (n : nat) (l : plimbs), poly_val P b n l = pval P b n (lim l) (length l).
+Proof. exact poly_val_pval. Qed.
+Print Assumptions C03_poly_val_pval.
+
+Theorem C03_phase_val_phase_f :
+  forall (P b : Z) (n : nat) (sk : list (list Z)) (ct : cols_t) (size : nat),
+    (1 <= n)%nat ->
+    wf_cols n (S (length sk)) size ct ->
+    (forall i : nat, (i < length sk)%nat -> length (nth i sk (pzero n)) = n) ->
+    phase_val P b n sk ct = phase_f P b n (S (length sk)) size (limbs_of ct) (sk_ext n sk).
+Proof. exact phase_val_phase_f. Qed.
+Print Assumptions C03_phase_val_phase_f.
+
+(* (3b) glwe_keyswitch_internal with Gadget.phase_val on the left *)
+Theorem C03_keyswitch_internal_phase_val :
+  forall (P b : Z) (n rin msize a_size dsize dnum : nat) (ct : cols_t) (K : pmat) (sk_out : list (list Z)) (s_in : nat -> list Z)
+      (e I : nat -> nat -> list Z),
+    wf_cols n (S rin) a_size ct ->
+    wf_pmat_in n (dnum * rin) (msize * S (length sk_out)) K ->
+    (1 <= n)%nat ->
+    (1 <= dsize)%nat ->
+    (dsize - 2 <= msize)%nat ->
+    (forall s : list Z, In s sk_out -> length s = n) ->
+    (forall ci : nat, length (s_in ci) = n) ->
+    (forall row ci : nat, length (e row ci) = n) ->
+    (forall row ci : nat, length (I row ci) = n) ->
+    0 <= b ->
+    Z.of_nat msize * b <= P ->
+    Z.of_nat dnum * Z.of_nat dsize * b <= P ->
+    key_rows_ok P b n rin (S (length sk_out)) msize dsize dnum K (sk_ext n sk_out) s_in e I ->
+    exists ks : cols_t,
+      keyswitch_internal n (S (length sk_out)) msize (zcols n (S (length sk_out)) msize) ct a_size dsize dnum msize K = Some ks /\
+      phase_val P b n sk_out ks =
+      padd
+        (padd
+           (padd (pval P b n (acol n ct 0) (Nat.min msize a_size))
+              (psumf n (fun ci : nat => pmul (pval_used P b n a_size dsize dnum (acol n (tl ct)) ci) (s_in ci)) rin))
+           (gadget_err P b n rin (S (length sk_out)) msize dsize dnum (acol n (tl ct)) K (sk_ext n sk_out) e))
+        (pscale (2 ^ P) (gadget_int b n rin (S (length sk_out)) msize dsize dnum (acol n (tl ct)) K (sk_ext n sk_out) I)).
+Proof. exact C03_keyswitch_internal_phase_val_lemma. Qed.
+Print Assumptions C03_keyswitch_internal_phase_val.
+
+(* ---- the hypotheses are satisfiable: a concrete small instance (definitions ex*_ in the Proofs file), and the model run on it ---- *)
+Example C03_hypotheses_satisfiable :
+  wf_cols 2 2 2 ex3_ct /\ wf_pmat_in 2 (1 * 1) (2 * 2) ex3_K /\ (1 <= 2)%nat /\ (1 <= 2)%nat /\ (1 <= 2)%nat /\ (2 - 2 <= 2)%nat /\
+  (forall co, length (sk_ext 2 ex3_sk co) = 2%nat) /\ sk_ext 2 ex3_sk 0 = pone 2 /\
+  (forall ci, length (ex3_sin ci) = 2%nat) /\ (forall row ci, length (ex3_zero row ci) = 2%nat) /\
+  0 <= 4 /\ Z.of_nat 2 * 4 <= 8 /\ Z.of_nat 1 * Z.of_nat 2 * 4 <= 8 /\
+  key_rows_ok 8 4 2 1 2 2 2 1 ex3_K (sk_ext 2 ex3_sk) ex3_sin ex3_zero ex3_zero.
+Proof. exact C03_hypotheses_satisfiable_lemma. Qed.
+
+Example C03_instance_runs :
+  exists ks, keyswitch_internal 2 2 2 (zcols 2 2 2) ex3_ct 2 2 1 2 ex3_K = Some ks /\
+    phase_f 8 4 2 2 2 (limbs_of ks) (sk_ext 2 ex3_sk)
+    = padd (padd (padd (pval 8 4 2 (acol 2 ex3_ct 0) (Nat.min 2 2))
+                       (psumf 2 (fun ci => pmul (pval_used 8 4 2 2 2 1 (acol 2 (tl ex3_ct)) ci) (ex3_sin ci)) 1))
+                 (gadget_err 8 4 2 1 2 2 2 1 (acol 2 (tl ex3_ct)) ex3_K (sk_ext 2 ex3_sk) ex3_zero))
+           (pscale (2 ^ 8) (gadget_int 4 2 1 2 2 2 1 (acol 2 (tl ex3_ct)) ex3_K (sk_ext 2 ex3_sk) ex3_zero)).
+Proof. exact C03_instance_runs_lemma. Qed.
